@@ -243,11 +243,11 @@ func isErrorType(t types.Type) bool {
 
 // Cond describes the condition under which edge (b -> b.Succs[k]) is taken, after removing negations.
 type Cond struct {
-	V   ssa.Value // the compared / tested value after normalisation
-	Op  token.Token // EQL, NEQ, LSS..., or ILLEGAL for a plain boolean
+	V    ssa.Value   // the compared / tested value after normalisation
+	Op   token.Token // EQL, NEQ, LSS..., or ILLEGAL for a plain boolean
 	X, Y ssa.Value
-	Pos bool // polarity: the edge is taken when the (normalised) condition is true
-	If  *ssa.If
+	Pos  bool // polarity: the edge is taken when the (normalised) condition is true
+	If   *ssa.If
 }
 
 // edgeCond returns the condition of edge k of block b (nil if b does not end in If).
@@ -368,7 +368,14 @@ type Walk struct {
 	visitedBlockEntry map[*ssa.BasicBlock]bool
 	parent            map[*ssa.BasicBlock]edge // how a block entry was first reached
 	Visited           map[ssa.Instruction]bool
-	startBlock        map[*ssa.BasicBlock]bool
+	// SuccessVisited: the Return was reached on a path on which its error result is not known to be non-nil
+	SuccessVisited map[*ssa.Return]bool
+	startBlock     map[*ssa.BasicBlock]bool
+}
+
+// succ reports whether ret is reachable in this walk as a return that can report success.
+func (w *Walk) succ(fn *ssa.Function, ret *ssa.Return) bool {
+	return w.Visited[ret] && w.SuccessVisited[ret] && !isFailureReturn(fn, ret)
 }
 
 type edge struct {
@@ -377,15 +384,23 @@ type edge struct {
 }
 
 // From explores all instructions reachable strictly after the given instructions (or from function entry if starts is nil).
+// The exploration is sensitive to nil-tests of error values along the path (see facts.go).
 func (w *Walk) From(starts ...ssa.Instruction) {
 	w.visitedBlockEntry = map[*ssa.BasicBlock]bool{}
 	w.parent = map[*ssa.BasicBlock]edge{}
 	w.Visited = map[ssa.Instruction]bool{}
+	w.SuccessVisited = map[*ssa.Return]bool{}
 	w.startBlock = map[*ssa.BasicBlock]bool{}
 	type item struct {
 		b *ssa.BasicBlock
 		i int
+		f facts
 	}
+	type vkey struct {
+		b *ssa.BasicBlock
+		f facts
+	}
+	seen := map[vkey]bool{}
 	var work []item
 	if len(starts) == 0 {
 		if len(w.Fn.Blocks) == 0 {
@@ -393,13 +408,13 @@ func (w *Walk) From(starts ...ssa.Instruction) {
 		}
 		w.visitedBlockEntry[w.Fn.Blocks[0]] = true
 		w.startBlock[w.Fn.Blocks[0]] = true
-		work = append(work, item{w.Fn.Blocks[0], 0})
+		work = append(work, item{w.Fn.Blocks[0], 0, ""})
 	}
 	for _, s := range starts {
 		b := s.Block()
 		for i, in := range b.Instrs {
 			if in == s {
-				work = append(work, item{b, i + 1})
+				work = append(work, item{b, i + 1, ""})
 				w.startBlock[b] = true
 			}
 		}
@@ -408,13 +423,26 @@ func (w *Walk) From(starts ...ssa.Instruction) {
 		it := work[len(work)-1]
 		work = work[:len(work)-1]
 		stopped := false
+		f := it.f
 		for i := it.i; i < len(it.b.Instrs); i++ {
 			in := it.b.Instrs[i]
 			w.Visited[in] = true
+			if ret, ok := in.(*ssa.Return); ok {
+				fail := false
+				if idx := errResultIndex(w.Fn); idx >= 0 && idx < len(ret.Results) {
+					if kn, isNil := f.known(retOperand(ret, idx)); kn && !isNil {
+						fail = true
+					}
+				}
+				if !fail {
+					w.SuccessVisited[ret] = true
+				}
+			}
 			if w.Stop != nil && w.Stop(in) {
 				stopped = true
 				break
 			}
+			f = f.afterInstr(in)
 		}
 		if stopped {
 			continue
@@ -423,11 +451,20 @@ func (w *Walk) From(starts ...ssa.Instruction) {
 			if w.SkipEdge != nil && w.SkipEdge(it.b, k) {
 				continue
 			}
+			if !f.feasible(it.b, k) {
+				continue
+			}
+			nf := f.afterEdge(it.b, k)
+			vk := vkey{s, nf}
+			if seen[vk] {
+				continue
+			}
+			seen[vk] = true
 			if !w.visitedBlockEntry[s] {
 				w.visitedBlockEntry[s] = true
 				w.parent[s] = edge{it.b, k}
-				work = append(work, item{s, 0})
 			}
+			work = append(work, item{s, 0, nf})
 		}
 	}
 }
